@@ -165,7 +165,7 @@ template <typename T, std::size_t N> struct Meta<T[N]> : FixedSeq<T, N, T[N]> {}
 
 template <typename T, typename A> struct Meta<std::vector<T, A>> {
   using V = std::vector<T, A>;
-  static void draw(V* v) { v->clear(); for (int i = 0; i < MetaCfg::heap_count; i++) { T e; Meta<T>::draw(&e); v->push_back(e); } }
+  static void draw(V* v) { v->clear(); v->resize(MetaCfg::heap_count); for (int i = 0; i < MetaCfg::heap_count; i++) Meta<T>::draw(&(*v)[i]); }
   static bool eq(const V& a, const V& b) { if (a.size() != b.size()) return false; for (std::size_t i = 0; i < a.size(); i++) if (!Meta<T>::eq(a[i], b[i])) return false; return true; }
   static void enc(const V& a, Out& o) {
     if (std::is_integral<T>::value) { o.put(0xbc); ref_enc_uint(o, a.size() * sizeof(T)); for (std::size_t i = 0; i < a.size(); i++) FixedSeq<T, 1, T[1]>::ref_put_raw_any(o, a[i]); }
@@ -187,7 +187,7 @@ template <typename T, typename A> struct Meta<std::vector<T, A>> {
 };
 template <typename C, typename Tr_, typename A> struct Meta<std::basic_string<C, Tr_, A>> {
   using S = std::basic_string<C, Tr_, A>;
-  static void draw(S* v) { v->clear(); for (int i = 0; i < MetaCfg::heap_count; i++) { C e = (C)DrawBits<sizeof(C)>::draw(); v->push_back(e); } }
+  static void draw(S* v) { v->clear(); v->resize(MetaCfg::heap_count); for (int i = 0; i < MetaCfg::heap_count; i++) (*v)[i] = (C)DrawBits<sizeof(C)>::draw(); }
   static bool eq(const S& a, const S& b) { if (a.size() != b.size()) return false; for (std::size_t i = 0; i < a.size(); i++) if (a[i] != b[i]) return false; return true; }
   static void enc(const S& a, Out& o) { o.put(0xbd); ref_enc_uint(o, a.size() * sizeof(C)); for (std::size_t i = 0; i < a.size(); i++) ref_put_raw(o, a[i]); }
   static bool dec(In& in, S* a) {
